@@ -5,8 +5,16 @@
                               object stands for; room = bytes a prependable can still
                               take in front (0 for the other kinds)
    cut[o] = the byte values that a CapLength on o (or on the object o was derived
-            from) has excluded.  Drivers use pairwise distinct byte values for
-            everything that is ever content, so a value identifies a byte.
+            from) has put beyond the cap.  Drivers use pairwise distinct byte values
+            for everything that is ever content or spare capacity, so a value
+            identifies a byte.  "Beyond the cap" is physical: CapLength(m) takes a
+            description `phys` of the object as the API shows it just before the
+            call - the sequence of its views, each with its content b and the
+            bytes ext that re-slicing it to its capacity would add - and excludes
+            everything that lies after the m-th content byte: the rest of that
+            view's content, that view's spare bytes, and every later view with its
+            spare bytes (m = 0: everything).  Views before the cap point keep their
+            spare capacity; those bytes are not beyond the cap.
             "A capped view cannot be re-extended": nothing reachable by re-slicing
             a view of o up to its capacity may be in cut[o].
 
@@ -29,6 +37,14 @@ Live == DOMAIN abs
 Is(o, k) == o \in Live /\ abs[o].kind = k
 Size(o) == Len(abs[o].b)
 
+\* phys = <<[b |-> content, ext |-> spare bytes], ...>>: what lies after the m-th content byte
+AllOf(phys, i) == UNION {Range(phys[j].b) \cup Range(phys[j].ext) : j \in i..Len(phys)}
+RECURSIVE After(_, _, _)
+After(phys, i, m) == IF i > Len(phys) THEN {}
+                     ELSE IF m = 0 THEN AllOf(phys, i)
+                     ELSE IF m > Len(phys[i].b) THEN After(phys, i + 1, m - Len(phys[i].b))
+                     ELSE Range(Drop(phys[i].b, m)) \cup Range(phys[i].ext) \cup AllOf(phys, i + 1)
+
 PInit == abs = <<>> /\ cut = <<>>
 
 \* a fresh object built from caller-supplied bytes
@@ -40,10 +56,13 @@ PDerive(o, k, b) == abs' = Append(abs, AObj(k, b, 0)) /\ cut' = Append(cut, cut[
 PTrim(o, n) == /\ Is(o, "vv")
                /\ abs' = [abs EXCEPT ![o].b = Drop(@, Clamp(n, 0, Len(@)))]
                /\ UNCHANGED cut
-PCap(o, n)  == /\ Is(o, "vv")
+\* a cap beyond the size does nothing at all (nothing is excluded either)
+PCap(o, n, phys) ==
+               /\ Is(o, "vv")
                /\ LET b == abs[o].b  m == Clamp(n, 0, Len(b)) IN
                     /\ abs' = [abs EXCEPT ![o].b = Take(b, m)]
-                    /\ cut' = [cut EXCEPT ![o] = @ \cup Range(Drop(b, m))]
+                    /\ cut' = IF n > Len(b) THEN cut
+                              ELSE [cut EXCEPT ![o] = @ \cup Range(Drop(b, m)) \cup After(phys, 1, m)]
 \* RemoveFirst drops what First() shows: a prefix of k bytes
 PRemoveFirst(o, k) == /\ Is(o, "vv") /\ 0 <= k /\ k <= Size(o)
                       /\ abs' = [abs EXCEPT ![o].b = Drop(@, k)]
@@ -56,10 +75,11 @@ PFirst(o, f) == Is(o, "vv") /\ IsPrefix(f, abs[o].b) /\ PDerive(o, "view", f)
 PWTrim(o, n) == /\ Is(o, "view") /\ 0 <= n /\ n <= Size(o)
                 /\ abs' = [abs EXCEPT ![o].b = Drop(@, n)]
                 /\ UNCHANGED cut
-PWCap(o, n)  == /\ Is(o, "view") /\ 0 <= n /\ n <= Size(o)
+PWCap(o, n, phys) ==
+                /\ Is(o, "view") /\ 0 <= n /\ n <= Size(o)
                 /\ LET b == abs[o].b IN
                      /\ abs' = [abs EXCEPT ![o].b = Take(b, n)]
-                     /\ cut' = [cut EXCEPT ![o] = @ \cup Range(Drop(b, n))]
+                     /\ cut' = [cut EXCEPT ![o] = @ \cup Range(Drop(b, n)) \cup After(phys, 1, n)]
 PToVV(o)   == Is(o, "view") /\ PDerive(o, "vv", abs[o].b)
 PToPrep(o) == Is(o, "view") /\ PDerive(o, "prep", abs[o].b)      \* entirely used: room 0
 
